@@ -140,7 +140,8 @@ def replay_std(ctx, doc, interner, opts, n):
             return np.nan if n % 2 else None
         return POOL[c["name"]][cid - 1] if c["name"] in POOL else f"extra{cid}"
     data = {names[i]: [text(cols[i], row[i]) for row in doc["tab"]] for i in range(len(cols))}
-    index = [f"r{i}" for i in range(len(doc["tab"]))][::-1] if n % 3 == 0 else (list(range(10, 10 + len(doc["tab"]))) if n % 3 == 1 else None)
+    nrows = len(doc["tab"])
+    index = [[f"r{i}" for i in range(nrows)][::-1], list(range(10, 10 + nrows)), None, ["donor1"] * nrows][(n // 3) % 4]      # incl. repeated labels
     df = pd.DataFrame(data, index=index, columns=names)
     before = df.copy(deep=True)
     mapper = {colname(c): c["name"] for c in cols if c["old"]} if doc["opts"]["mapper"] else None
